@@ -28,4 +28,22 @@ CHECKS = {
         "note": "Compares two runs of the same build; token identity via solang's public lexer; comments next to a pragma value are not generated.",
         "technique": "TLA+ spec (Lines.tla Emit machine) + TLC-generated layouts + TLC trace validation of recorded runs",
     },
+    "C11": {
+        "text": "TLC checks the renderer machine (any iteration order of the map) for round trip, section-iff and well-formedness over all findings maps within the bound; every map, each pattern alone, each pair, random large maps and end-to-end generate_report runs are rendered by the real code, tokenised with section texts read from /repo, and the TV_Report trace specification evaluates the same predicates on what the code wrote.",
+        "design_ref": "section 7 C11",
+        "note": "Bounded findings maps in the model; file names from a hostile pool without line breaks; section texts trusted as found in src/report/report_sections.",
+        "technique": "TLA+ spec (Report.tla) + TLC + real renderings read back + TLC trace validation",
+    },
+    "C12": {
+        "text": "As C11 with the totals / category / severity predicates: TLC checks them on the renderer machine with three severity buffers for all 16 subsets of the vulnerability patterns crossed with file/line multiplicities; TV_Report evaluates them on the real renderings and on which category parts solstat_report.md contains.",
+        "design_ref": "section 7 C12",
+        "note": "Maps as analyze_dir produces them (no pattern with an empty file list).",
+        "technique": "TLA+ spec (Report.tla) + TLC + real renderings read back + TLC trace validation",
+    },
+    "C13": {
+        "text": "TLC checks that the canonical renderer is a function of the bag of findings and refines the permissive renderer; each bag is rendered 1+k times by the real code from maps filled in different orders (fresh hash keys) and with permuted file vectors, compared byte for byte, and the recorded item sequences are validated by TV_Report.",
+        "design_ref": "section 7 C13",
+        "note": "Hash seeds vary per HashMap instance inside one process; binary-level repetition across processes and creation histories is exercised by the directory checks.",
+        "technique": "TLA+ spec (Report.tla, MC_Report RenderCanon) + TLC + repeated real renderings + TLC trace validation",
+    },
 }
